@@ -49,9 +49,11 @@ Inductive case :=
 | CPolicy (allow : bool) (decl : list (name * N * V)) (ep : N) (n : name) (svc_has : option (N * V))
           (cls : N) (nreq : N) (tok : V)
           (wfail : bool)                            (* INPUT: the cache refuses every write made by the call *)
-          (a_secret : bool) (nreq2 : N) (a_polled a_cached : bool)
+          (a_secret : bool) (nreq2 : N) (a_polled a_cached : bool) (bump_tok after_tok : V)
           (* afterwards: Secret(n) is a live handle; requests sent by one more LookupSecret(n); the next
-             Refresh asked about n; the cache's contents include n *)
+             Refresh asked about n; the cache's contents include n.  Before that Refresh the service
+             activated a new version carrying bump_tok; after_tok: what the handle / Updater handed out by the
+             call then serves (0: none) *)
 | CFlight (decl : list (name * N * V)) (n : name) (callers : list caller) (scripts : list (svc V)) (wins : list nat)
           (obs_done : list (N * N * V))            (* per caller, by index: class, instant, token *)
           (obs_log : list mark) (maxconc : N)
@@ -61,10 +63,15 @@ Inductive case :=
           (* the first Cache.Write whose document contains n: happened; the cache's answer (INPUT);
              the bytes the document carries for n; whether the cache's contents included n right after *)
           (a_req : bool)                            (* one more LookupSecret(n) afterwards sent a request *)
+          (eps : list N) (bump_tok : V) (obs_after : list V)
+          (* per caller its entry point (1 LookupSecret, 2 NewUpdater, 3 Apply); AFTERWARDS the service activates
+             a new version carrying bump_tok and a poll follows; obs_after: what each caller's handle /
+             Updater.Get then serves (0: the caller got nothing) *)
 | CFlightH (decl : list (name * N * V)) (n : name) (callers : list caller) (hscripts : list hscript) (wins : list nat)
            (obs_done : list (N * N * V)) (obs_log : list mark) (maxconc : N)
            (after_secret after_polled after_cached : bool) (solo : bool)
            (fl_seen fl_ok : bool) (fl_tok : V) (fl_cached : bool) (a_req : bool)
+           (eps : list N) (bump_tok : V) (obs_after : list V)
            (* as CFlight, but the store talks to the service through the REAL network client setec.Client
               (client/setec/client.go) over a scripted HTTP transport: the scripts are HTTP responses *)
 | CPollH (decl : list (name * N * V)) (ans : list (name * hscript))
@@ -86,11 +93,12 @@ Definition ep_of (k : N) : entry_point :=
   match k with 0 => EPSecret | 1 => EPLookup | 2 => EPUpdater | _ => EPApply end.
 
 Definition val_of (s : store V) (n : name) : V := match entry s n with Some e => val e | None => 0 end.
+Definition ver_of (s : store V) (n : name) : N := match entry s n with Some e => ver e | None => 0 end.
 
 Definition in_names (n : name) (l : list name) : bool := existsb (neqb n) l.
 
 Definition check_policy allow decl ep n (svc_has : option (N * V)) cls nreq tok
-           (wfail a_secret : bool) (nreq2 : N) (a_polled a_cached : bool) : bool :=
+           (wfail a_secret : bool) (nreq2 : N) (a_polled a_cached : bool) (bump_tok after_tok : V) : bool :=
   let s := init_store allow decl in
   (* the store after the call: only a successful fetch changes the map (a handle may be created) *)
   let fetched := match policy s (ep_of ep) n, svc_has with PFetch, Some _ => true | _, _ => false end in
@@ -113,7 +121,16 @@ Definition check_policy allow decl ep n (svc_has : option (N * V)) cls nreq tok
   && (nreq2 =? (if sends_request (policy s' EPLookup n) then 1 else 0))
   && Bool.eqb a_polled (in_names n (map fst (requests (snapshot s' 0%Z))))
   (* the cache holds the construction-time document, and the lookup's iff it was accepted *)
-  && Bool.eqb a_cached (in_names n (map fst (doc s)) || (fetched && negb wfail && in_names n (map fst (doc s')))).
+  && Bool.eqb a_cached (in_names n (map fst (doc s)) || (fetched && negb wfail && in_names n (map fst (doc s'))))
+  (* afterwards the service activates a new version and a poll applies it: what the call handed out - a handle,
+     or an Updater whose watcher lookupWatcher registered (Store.add_watcher) on whichever path the name became
+     known: declared, or looked up by this very registration - serves the new bytes *)
+  && (let got := match policy s (ep_of ep) n, svc_has with PHandle, _ => true | PFetch, Some _ => true | _, _ => false end in
+      if got && known s' n then
+        let s1 := if ep =? 2 then fst (add_watcher s' n) else s' in
+        let s2 := fst (apply_updates s1 [(n, Install (ver_of s' n + 1) bump_tok)]) in
+        forallb (fun w => wflag w) (ws s2) && (after_tok =? val_of s2 n)
+      else after_tok =? 0).
 
 (* result classes of a flight caller: 0 handle, 1 service error, 2 own deadline, 3 own cancellation *)
 Definition cls_of (r : res) : N :=
@@ -145,7 +162,6 @@ Definition mark_beq (a b : mark) : bool :=
   | _, _ => false
   end.
 
-Definition ver_of (s : store V) (n : name) : N := match entry s n with Some e => ver e | None => 0 end.
 
 Definition check_late decl n (first second : option (N * V)) (held : bool) b_cls b_tok a_cls a_tok a_nreq served polled_ver : bool :=
   let s0 := init_store true decl in
@@ -165,8 +181,46 @@ Definition check_late decl n (first second : option (N * V)) (held : bool) b_cls
   | None => false
   end.
 
+(* AFTERWARDS.  Every caller that left with a handle keeps it; every NewUpdater caller that succeeded has a watcher
+   registered by lookupWatcher (Store.add_watcher, after the lookup - on whichever entry ended up installed:
+   by an earlier lookup, by this very registration's flight, or by the flight of another caller it joined).
+   Then the service activates a new version and a poll applies it (Store.apply_updates: install, then notify
+   every watcher of the name).  A handle reads the store; an Updater rebuilds iff its watcher's slot is full. *)
+Fixpoint updaters_of (eps : list N) (d : list (nat * res * N)) : list nat :=
+  match d with
+  | [] => []
+  | (i, RHandle, _) :: r => if nth i eps 0 =? 2 then i :: updaters_of eps r else updaters_of eps r
+  | _ :: r => updaters_of eps r
+  end.
+Fixpoint index_of (i : nat) (l : list nat) (k : nat) : option nat :=
+  match l with [] => None | x :: r => if Nat.eqb i x then Some k else index_of i r (S k) end.
+Fixpoint after_ok (st st2 : store V) (n : name) (d : list (nat * res * N)) (eps : list N) (ups : list nat)
+         (i : nat) (obs : list V) : bool :=
+  match obs with
+  | [] => true
+  | tok :: rest =>
+      (match find_done i d with
+       | Some (RHandle, _) =>
+           if nth i eps 0 =? 2
+           then match index_of i ups 0 with
+                | Some k => tok =? (if match nth_error (ws st2) k with Some w => wflag w | None => false end
+                                    then val_of st2 n else val_of st n)
+                | None => false
+                end
+           else tok =? val_of st2 n
+       | _ => tok =? 0
+       end) && after_ok st st2 n d eps ups (S i) rest
+  end.
+Definition check_after (st : store V) (n : name) (d : list (nat * res * N)) (eps : list N) (bump_tok : V) (obs_after : list V) : bool :=
+  let ups := updaters_of eps d in
+  let st1 := fold_left (fun s _ => fst (add_watcher s n)) ups st in
+  let st2 := if known st n then fst (apply_updates st1 [(n, Install (ver_of st n + 1) bump_tok)]) else st1 in
+  Nat.eqb (length obs_after) (length eps)
+  && (negb (known st n) || forallb (fun w => wflag w) (ws st2))   (* the model wakes every registered watcher *)
+  && after_ok st st2 n d eps ups 0 obs_after.
+
 Definition check_flight decl n callers scr wn obs_done obs_log maxconc (a_secret a_polled a_cached solo fl_seen fl_ok : bool)
-           (fl_tok : V) (fl_cached a_req : bool) : bool :=
+           (fl_tok : V) (fl_cached a_req : bool) (eps : list N) (bump_tok : V) (obs_after : list V) : bool :=
       (* the model WITH a cache; the cache's answer to the (only possible) install flush is an input *)
       match crun n (fuel_for callers) (cinit callers scr wn (init_store true decl) [fl_ok]) with
       | None => false
@@ -193,6 +247,7 @@ Definition check_flight decl n callers scr wn obs_done obs_log maxconc (a_secret
           && (if solo then Bool.eqb a_cached landed_has
               else if landed_has then a_cached else if known st n then true else negb a_cached)
           && Bool.eqb a_req (sends_request (policy st EPLookup n))
+          && check_after st n (done s) eps bump_tok obs_after
       end.
 
 (* one Refresh through the real client, against Store.refresh of the shared store model *)
@@ -213,12 +268,12 @@ Definition check (c : case) : bool :=
   match c with
   | CLate decl n first second held b_cls b_tok a_cls a_tok a_nreq served polled_ver =>
       check_late decl n first second held b_cls b_tok a_cls a_tok a_nreq served polled_ver
-  | CPolicy allow decl ep n svc_has cls nreq tok wfail a_secret nreq2 a_polled a_cached =>
-      check_policy allow decl ep n svc_has cls nreq tok wfail a_secret nreq2 a_polled a_cached
-  | CFlight decl n callers scr wn obs_done obs_log maxconc a_secret a_polled a_cached solo fl_seen fl_ok fl_tok fl_cached a_req =>
-      check_flight decl n callers scr wn obs_done obs_log maxconc a_secret a_polled a_cached solo fl_seen fl_ok fl_tok fl_cached a_req
-  | CFlightH decl n callers hscr wn obs_done obs_log maxconc a_secret a_polled a_cached solo fl_seen fl_ok fl_tok fl_cached a_req =>
+  | CPolicy allow decl ep n svc_has cls nreq tok wfail a_secret nreq2 a_polled a_cached bump_tok after_tok =>
+      check_policy allow decl ep n svc_has cls nreq tok wfail a_secret nreq2 a_polled a_cached bump_tok after_tok
+  | CFlight decl n callers scr wn obs_done obs_log maxconc a_secret a_polled a_cached solo fl_seen fl_ok fl_tok fl_cached a_req eps bump_tok obs_after =>
+      check_flight decl n callers scr wn obs_done obs_log maxconc a_secret a_polled a_cached solo fl_seen fl_ok fl_tok fl_cached a_req eps bump_tok obs_after
+  | CFlightH decl n callers hscr wn obs_done obs_log maxconc a_secret a_polled a_cached solo fl_seen fl_ok fl_tok fl_cached a_req eps bump_tok obs_after =>
       (* the model is the same: the HTTP answers are mapped to what the service did by client.go's map *)
-      check_flight decl n callers (map svc_of_http hscr) wn obs_done obs_log maxconc a_secret a_polled a_cached solo fl_seen fl_ok fl_tok fl_cached a_req
+      check_flight decl n callers (map svc_of_http hscr) wn obs_done obs_log maxconc a_secret a_polled a_cached solo fl_seen fl_ok fl_tok fl_cached a_req eps bump_tok obs_after
   | CPollH decl ans cls nreqs dur vals => check_pollh decl ans cls nreqs dur vals
   end.
